@@ -63,3 +63,20 @@ pub open spec fn unfin_match(qtext: &TextRef, qms: Seq<WordMatch>) -> bool {
 pub open spec fn tm_fin(qtext: &TextRef, ret: (Vec<WordMatch>, Vec<WordMatch>)) -> bool {
     forall|a: int| 0 <= a < ret.0@.len() && !(#[trigger] ret.0@[a]).fin ==> unfin_match(qtext, ret.1@)
 }
+// ---- C14: split and joined spellings.  pair_split: word j of the record text is spelled by the first two query words (one separator
+// between them, the second one still being typed); the word has at least five characters, three of them different.
+pub open spec fn pair_split(rtext: &TextRef, qtext: &TextRef, j: int) -> bool {
+    0 <= j < rtext.words@.len() && qtext.words@.len() >= 2 && !qtext.words@[1].fin && qtext.words@[1].slice.0 == qtext.words@[0].slice.1 + 1
+    && tchars(rtext, j) == tchars(qtext, 0) + tchars(qtext, 1) && tchars(rtext, j).len() >= 5 && three_letters(tchars(rtext, j))
+}
+// pair_join: words j and j+1 of the record text (one separator between them) are run together in the first query word, which is still being
+// typed and which stemming leaves unchanged; the second word has at least three characters, the run-together word three different ones
+pub open spec fn pair_join(rtext: &TextRef, qtext: &TextRef, j: int) -> bool {
+    0 <= j && j + 1 < rtext.words@.len() && qtext.words@.len() >= 1 && !qtext.words@[0].fin && rtext.words@[j + 1].slice.0 == rtext.words@[j].slice.1 + 1
+    && tchars(qtext, 0) == tchars(rtext, j) + tchars(rtext, j + 1) && qtext.words@[0].stem == tchars(qtext, 0).len()
+    && tchars(rtext, j + 1).len() >= 3 && three_letters(tchars(qtext, 0))
+}
+pub open spec fn tm_c14(rtext: &TextRef, qtext: &TextRef, ret: (Vec<WordMatch>, Vec<WordMatch>)) -> bool {
+    ((exists|j: int| #[trigger] pair_split(rtext, qtext, j)) ==> ret.0@.len() >= 1 && first_matched(ret.1@))
+    && ((exists|j: int| #[trigger] pair_join(rtext, qtext, j)) ==> ret.0@.len() >= 1 && first_matched(ret.1@))
+}
